@@ -81,6 +81,10 @@ Definition spec_C03 (i o : term) : bool :=
     krs_ok ps i q o && reversed_ok ps q o
   else false.                                                   (* compatible inputs must merge *)
 
-Definition cls_C03 (i : term) : list Z := [].
+(* class 25 = F25: some input has a negative period (the documented "maximum" is then not what
+   the code computes when only zero periods precede it) *)
+Definition cls_C03 (i : term) : list Z :=
+  if String.eqb (gs (gn i 0)) "skey" then [] else
+  if in_F25 (inputs_of i) then [25%Z] else [].
 
 Definition judge_C03 := judge_all run_C03 eqv_C03 spec_C03 cls_C03 0%Z.
